@@ -5,91 +5,100 @@
 use super::*;
 use crate::traits::Predict;
 
-// Member model: an arbitrary per-row single-target model (symbolic table over a 2-bit row tag).
-// Every member has its own symbolic table, so "column j is model j's prediction" cannot hold
-// by accident for a transposed / reshaped / permuted output.
-struct ColModel { t: [u8; 4] }
-impl ColModel {
-    fn f(&self, tag: u8) -> u8 { self.t[(tag & 3) as usize] }
-}
-impl PredictInplace<Array2<u8>, Array1<u8>> for ColModel {
+// Member model: an arbitrary per-row single-target model - a symbolic table over a 2-bit tag of
+// the row.  Every member has its own symbolic table, so "column j is model j's prediction" cannot
+// hold by accident for a transposed / reshaped / permuted output.
+// The witness is straight-line for N <= 3 rows (measured: CBMC cannot resolve the end of the
+// wrapper's flat_map/collect iteration, so every loop inside a member is re-unrolled in
+// unwind^2 contexts; a loop-free member keeps the 3x3 instance at ~4 min instead of out-of-memory).
+struct ColN<const N: usize> { t: [u8; 4] }
+impl<const N: usize> PredictInplace<Array2<u8>, Array1<u8>> for ColN<N> {
     fn predict_inplace<'a>(&'a self, x: &'a Array2<u8>, y: &mut Array1<u8>) {
-        assert!(x.nrows() == y.len(), "The number of data points must match the number of output targets.");
-        let mut i = 0;
-        while i < x.nrows() { y[i] = self.f(x[(i, 0)]); i += 1; }
+        assert!(x.nrows() == N && y.len() == N, "The number of data points must match the number of output targets.");
+        if N > 0 { y[0] = self.t[(x[(0, 0)] & 3) as usize]; }
+        if N > 1 { y[1] = self.t[(x[(1, 0)] & 3) as usize]; }
+        if N > 2 { y[2] = self.t[(x[(2, 0)] & 3) as usize]; }
     }
     fn default_target(&self, x: &Array2<u8>) -> Array1<u8> { Array1::zeros(x.nrows()) }
 }
+type Member = Box<dyn PredictInplace<Array2<u8>, Array1<u8>>>;
+fn member<const N: usize>(t: [u8; 4]) -> Member { Box::new(ColN::<N> { t }) }
 
-// Oracle, from the statement: shape (rows, models); y[i][j] == model_j(row_i).
-fn check_mt<const M: usize, const N: usize>(via_blanket: bool) -> Array2<u8> {
-    let tables: [[u8; 4]; M] = kani::any();
-    let r: [u8; N] = kani::any();
-    let x = Array2::from_shape_vec((N, 1), r.to_vec()).unwrap();
-    let mut models = Vec::new();
-    let mut j = 0;
-    while j < M { models.push(ColModel { t: tables[j] }); j += 1; }
-    let mt: MultiTargetModel<Array2<u8>, u8> = models.into_iter().collect();
-    let y: Array2<u8> = if via_blanket {
-        mt.predict(&x)
-    } else {
-        let mut y = mt.default_target(&x);
-        mt.predict_inplace(&x, &mut y);
-        y
-    };
+// Oracle, from the statement: output shape (rows, models); y[i][j] == model_j(row_i);
+// exactly one output row per input row.
+fn check<const M: usize, const N: usize>(y: &Array2<u8>, t: &[[u8; 4]; M], r: &[u8; N]) {
     assert!(y.nrows() == N && y.ncols() == M);
     let mut i = 0;
     while i < N {
         let mut j = 0;
-        while j < M {
-            assert!(y[(i, j)] == tables[j][(r[i] & 3) as usize]);
-            j += 1;
-        }
+        while j < M { assert!(y[(i, j)] == t[j][(r[i] & 3) as usize]); j += 1; }
         i += 1;
     }
-    // the input records are untouched
-    let mut i = 0;
-    while i < N { assert!(x[(i, 0)] == r[i]); i += 1; }
-    y
 }
 
-// @unit class=bounded tier=quick mem=light bound="models=2,rows=3" timeout=900 fns=linfa::composing::MultiTargetModel::predict_inplace,linfa::composing::MultiTargetModel::default_target,linfa::composing::MultiTargetModel::from_iter
+// @unit class=bounded tier=quick mem=heavy bound="models=2,rows=2" timeout=900 fns=linfa::composing::MultiTargetModel::predict_inplace,linfa::composing::MultiTargetModel::default_target,linfa::composing::MultiTargetModel::new
 #[kani::proof]
-#[kani::unwind(8)]
+#[kani::unwind(5)]
+#[kani::stub(alloc::fmt::format, fmt_stub)]
+fn c03_multitarget_m2_n2() {
+    let t: [[u8; 4]; 2] = kani::any();
+    let r: [u8; 2] = kani::any();
+    let x = Array2::from_shape_vec((2, 1), vec![r[0], r[1]]).unwrap();
+    let mt: MultiTargetModel<Array2<u8>, u8> = MultiTargetModel::new(vec![member::<2>(t[0]), member::<2>(t[1])]);
+    let mut y = mt.default_target(&x);
+    mt.predict_inplace(&x, &mut y);
+    check::<2, 2>(&y, &t, &r);
+    assert!(x[(0, 0)] == r[0] && x[(1, 0)] == r[1]);
+    kani::cover!(y[(0, 1)] != y[(1, 0)]);       // transposition would be visible
+}
+
+// @unit class=bounded tier=thorough mem=heavy bound="models=2,rows=3" timeout=1200 fns=linfa::composing::MultiTargetModel::predict_inplace,linfa::composing::MultiTargetModel::default_target,linfa::composing::MultiTargetModel::new
+#[kani::proof]
+#[kani::unwind(7)]
 #[kani::stub(alloc::fmt::format, fmt_stub)]
 fn c03_multitarget_m2_n3() {
-    let y = check_mt::<2, 3>(true);
-    kani::cover!(y[(0, 0)] != y[(0, 1)] && y[(0, 0)] != y[(1, 0)] && y[(1, 0)] != y[(2, 0)] && y[(2, 0)] != y[(2, 1)]);
+    let t: [[u8; 4]; 2] = kani::any();
+    let r: [u8; 3] = kani::any();
+    let x = Array2::from_shape_vec((3, 1), vec![r[0], r[1], r[2]]).unwrap();
+    let mt: MultiTargetModel<Array2<u8>, u8> = MultiTargetModel::new(vec![member::<3>(t[0]), member::<3>(t[1])]);
+    let y: Array2<u8> = mt.predict(&x);
+    check::<2, 3>(&y, &t, &r);
+    kani::cover!(y[(0, 1)] != y[(1, 0)] && y[(2, 0)] != y[(1, 1)]);
 }
 
-// @unit class=bounded tier=thorough mem=light bound="models=3,rows=2" timeout=900 fns=linfa::composing::MultiTargetModel::predict_inplace,linfa::composing::MultiTargetModel::default_target,linfa::composing::MultiTargetModel::from_iter
+// @unit class=bounded tier=thorough mem=heavy bound="models=3,rows=3" timeout=1800 fns=linfa::composing::MultiTargetModel::predict_inplace,linfa::composing::MultiTargetModel::default_target,linfa::composing::MultiTargetModel::from_iter
 #[kani::proof]
-#[kani::unwind(8)]
-#[kani::stub(alloc::fmt::format, fmt_stub)]
-fn c03_multitarget_m3_n2() {
-    let y = check_mt::<3, 2>(false);
-    kani::cover!(y[(0, 0)] != y[(0, 1)] && y[(0, 1)] != y[(0, 2)] && y[(0, 0)] != y[(1, 0)]);
-}
-
-// @unit class=bounded tier=thorough mem=light bound="models=3,rows=3" timeout=1200 fns=linfa::composing::MultiTargetModel::predict_inplace,linfa::composing::MultiTargetModel::default_target,linfa::composing::MultiTargetModel::from_iter
-#[kani::proof]
-#[kani::unwind(11)]
+#[kani::unwind(10)]
 #[kani::stub(alloc::fmt::format, fmt_stub)]
 fn c03_multitarget_m3_n3() {
-    let y = check_mt::<3, 3>(true);
+    let t: [[u8; 4]; 3] = kani::any();
+    let r: [u8; 3] = kani::any();
+    let x = Array2::from_shape_vec((3, 1), vec![r[0], r[1], r[2]]).unwrap();
+    let mt: MultiTargetModel<Array2<u8>, u8> = vec![ColN::<3> { t: t[0] }, ColN::<3> { t: t[1] }, ColN::<3> { t: t[2] }].into_iter().collect();
+    let y: Array2<u8> = mt.predict(&x);
+    check::<3, 3>(&y, &t, &r);
     kani::cover!(y[(0, 1)] != y[(1, 0)] && y[(0, 2)] != y[(2, 0)] && y[(1, 2)] != y[(2, 1)]);
 }
 
-// corner shapes: one model one row; an empty batch; a wrapper without members
-// @unit class=bounded tier=thorough mem=light bound="models x rows=1x1;2x0;0x2" timeout=900 fns=linfa::composing::MultiTargetModel::predict_inplace,linfa::composing::MultiTargetModel::default_target,linfa::composing::MultiTargetModel::from_iter
+// corner shapes: more models than rows (3x1), an empty batch (2x0), a wrapper without members (0x2)
+// @unit class=bounded tier=thorough mem=heavy bound="models x rows=3x1;2x0;0x2" timeout=1500 fns=linfa::composing::MultiTargetModel::predict_inplace,linfa::composing::MultiTargetModel::default_target,linfa::composing::MultiTargetModel::new
 #[kani::proof]
-#[kani::unwind(6)]
+#[kani::unwind(5)]
 #[kani::stub(alloc::fmt::format, fmt_stub)]
 fn c03_multitarget_corners() {
-    let y = check_mt::<1, 1>(true);
-    kani::cover!(y[(0, 0)] == 5);
-    let e = check_mt::<2, 0>(true);
+    let t: [[u8; 4]; 3] = kani::any();
+    let r: [u8; 2] = kani::any();
+    let x1 = Array2::from_shape_vec((1, 1), vec![r[0]]).unwrap();
+    let mt: MultiTargetModel<Array2<u8>, u8> = MultiTargetModel::new(vec![member::<1>(t[0]), member::<1>(t[1]), member::<1>(t[2])]);
+    let y: Array2<u8> = mt.predict(&x1);
+    check::<3, 1>(&y, &t, &[r[0]]);
+    kani::cover!(y[(0, 0)] != y[(0, 1)] && y[(0, 1)] != y[(0, 2)]);
+    let x0 = Array2::from_shape_vec((0, 1), vec![]).unwrap();
+    let mt0: MultiTargetModel<Array2<u8>, u8> = MultiTargetModel::new(vec![member::<0>(t[0]), member::<0>(t[1])]);
+    let e: Array2<u8> = mt0.predict(&x0);
     assert!(e.nrows() == 0 && e.ncols() == 2);
-    let z = check_mt::<0, 2>(true);
+    let x2 = Array2::from_shape_vec((2, 1), vec![r[0], r[1]]).unwrap();
+    let none: MultiTargetModel<Array2<u8>, u8> = MultiTargetModel::new(vec![]);
+    let z: Array2<u8> = none.predict(&x2);
     assert!(z.nrows() == 2 && z.ncols() == 0);
 }
